@@ -3,10 +3,16 @@
 package c20
 
 import (
+	"context"
+	"encoding/json"
 	"fmt"
+	"os"
+	"os/exec"
 	"runtime/debug"
+	"strings"
 	"syscall"
 	"testing"
+	"time"
 	"unsafe"
 
 	"github.com/wollac/iota-crypto-demo/pkg/curl"
@@ -311,5 +317,92 @@ func TestStates(t *testing.T) {
 		Gen: genState, Check: checkState,
 		Require: []string{"valid/mode2", "valid/mode1", "valid+undefined-pairs", "prng/with-undefined-pairs", "words/with-undefined-pairs", "words/no-undefined-pairs"},
 		Rule:    "bit-sliced states: valid states (64 independent trit lanes: equal / single-trit differences / all different / sparse), valid states with a few undefined (0,0) pairs, arbitrary words (pseudo-random with sparse/dense bias, all-zero, all-one, walking bit, alternating, short-period patterns); the build-selected transform and transformGeneric run with all four buffers flush against PROT_NONE guard regions (two placements, SetPanicOnFault, canaries) and must agree bit for bit, never emit (0,0), equal 81 rounds of scalar Curl-P per valid lane, and keep lanes independent; non-trivial = >= 2 distinct valid lanes or arbitrary words; distinct by case",
+	})
+}
+
+// Concurrent calls: the routine must be re-entrant (no state outside its four buffers). Several
+// goroutines on several OS threads run the permutation on different states at the same time; every
+// result must equal the one computed alone. The job runs in a child process (the test binary
+// re-executes itself): a spinning assembly loop is not preemptible and would freeze this process
+// (and its watchdog) at the next stop-the-world, so the parent owns the 60 s deadline.
+type concCase struct {
+	Seed    uint64 `json:"seed"`
+	Workers int    `json:"workers"`
+	Calls   int    `json:"calls"`
+}
+
+func init() { childHook = concurrentChild }
+
+func concurrentChild(spec string) {
+	var c concCase
+	if err := json.Unmarshal([]byte(spec), &c); err != nil {
+		fmt.Println("CHILD-BAD-SPEC", err)
+		os.Exit(3)
+	}
+	type job struct{ l, hh, wantL, wantH [stateWords]uint }
+	jobs := make([]*job, c.Workers)
+	for w := range jobs {
+		j := &job{}
+		s := c.Seed + uint64(w)*0x9e3779b97f4a7c15
+		for i := range j.l {
+			j.l[i], j.hh[i] = uint(splitmix(&s)), uint(splitmix(&s))
+		}
+		inL, inH := j.l, j.hh
+		curl.VerifTransform(&j.wantL, &j.wantH, &inL, &inH) // alone
+		jobs[w] = j
+	}
+	fmt.Println("CHILD-SEQUENTIAL-DONE")
+	errs := make(chan string, c.Workers)
+	for w := range jobs {
+		go func(j *job) {
+			for k := 0; k < c.Calls; k++ {
+				var oL, oH [stateWords]uint
+				inL, inH := j.l, j.hh
+				curl.VerifTransform(&oL, &oH, &inL, &inH)
+				if oL != j.wantL || oH != j.wantH {
+					errs <- fmt.Sprintf("call %d", k)
+					return
+				}
+			}
+			errs <- ""
+		}(jobs[w])
+	}
+	for range jobs {
+		if e := <-errs; e != "" {
+			fmt.Println("CHILD-MISMATCH " + e)
+			os.Exit(0)
+		}
+	}
+	fmt.Println("CHILD-OK")
+	os.Exit(0)
+}
+
+func TestConcurrent(t *testing.T) {
+	name := "concurrent-" + buildVariant
+	h.Run(t, h.Sub[concCase]{
+		Prop: "C20", Name: name, N: 12,
+		Gen: func(t *rapid.T) concCase {
+			return concCase{Seed: rapid.Uint64().Draw(t, "seed"), Workers: h.OneOf(t, "workers", 2, 4, 8, 16), Calls: rapid.IntRange(20, 200).Draw(t, "calls")}
+		},
+		Check: func(c concCase) (h.Info, error) {
+			info := h.Info{Class: "concurrent", NT: true}
+			spec, _ := json.Marshal(c)
+			ctx, cancel := context.WithTimeout(context.Background(), 60*time.Second)
+			defer cancel()
+			cmd := exec.CommandContext(ctx, os.Args[0], "-test.run", "^$")
+			cmd.Env = append(os.Environ(), "VERIF_C20_CHILD="+string(spec))
+			out, err := cmd.CombinedOutput()
+			text := string(out)
+			switch {
+			case strings.Contains(text, "CHILD-OK"):
+				return info, nil
+			case strings.Contains(text, "CHILD-MISMATCH"):
+				return info, fmt.Errorf("transform [%s build] gives a different result when %d goroutines call it concurrently (%s): the routine keeps state outside its four buffers", buildVariant, c.Workers, strings.TrimSpace(text[strings.Index(text, "CHILD-MISMATCH"):]))
+			case ctx.Err() != nil && strings.Contains(text, "CHILD-SEQUENTIAL-DONE"):
+				return info, fmt.Errorf("transform [%s build] did not finish within 60 s when called from %d goroutines concurrently (%d calls each, expected milliseconds; the same calls one after the other completed): the routine is not re-entrant", buildVariant, c.Workers, c.Calls)
+			}
+			return info, fmt.Errorf("PRECONDITION: child process could not run (infrastructure): %v %.300s", err, text)
+		},
+		Rule: "2..16 goroutines call the build-selected transform concurrently on different pseudo-random states (20..200 calls each) in a child process: every result must equal the result computed alone, and the child must finish within 60 s; all non-trivial; distinct by case",
 	})
 }
